@@ -84,28 +84,52 @@ fn vk_c02_board_set_remove() {
     assert!(sym::boards_equal(&b, &sym::board_of(&mb)));
 }
 
+pub static mut ICQ_CALLS: u8 = 0;
+pub static mut ICQ_SQUARE: u8 = 0;
+pub static mut ICQ_PLAYER: Option<Player> = None;
+pub static mut ICQ_SAME_BOARD: bool = false;
+pub static mut ICQ_ANSWER: u64 = 0;
+pub static mut ICQ_EXPECT: Option<sym::Mailbox> = None;
+fn attackers_contract(board: &Board, player: Player, square: Square) -> Bitboard {
+    unsafe {
+        ICQ_CALLS += 1;
+        ICQ_SQUARE = square.idx();
+        ICQ_PLAYER = Some(player);
+        ICQ_SAME_BOARD = sym::boards_equal(board, &sym::board_of(&ICQ_EXPECT.unwrap()));
+        ICQ_ANSWER = kani::any();
+        Bitboard::new(ICQ_ANSWER)
+    }
+}
+
 //@ obligation: C01.in_check.exact
 //@ property: C01
 //@ domain: complete
 //@ functions: chess/board.rs::Board::king_in_check, chess/game.rs::Game::is_king_in_check
-//@ timeout: 1500
-//@ mem_gb: 8
-//@ note: fully symbolic board with exactly one king of the asked colour: the check verdict equals "some enemy piece attacks the king's square under the rules"
-//@ assumes: table lookups == coordinate geometry (C07)
+//@ timeout: 900
+//@ mem_gb: 6
+//@ note: fully symbolic board with exactly one king of the asked colour: the check verdict is "the set of enemy attackers of OUR KING'S square on THIS board is non-empty" -- one attack query, about this very position, our colour, the square our king stands on; what that set is under the rules is C01.attackers.exact
+//@ assumes: callee contract C01.attackers.exact
 #[kani::proof]
 #[kani::unwind(10)]
-//@@stubs-tables
+#[kani::stub(crate::chess::movegen::attackers::generate_attackers_of, attackers_contract)]
 fn vk_c01_in_check_exact() {
     let mb = sym::any_mailbox();
     let pl = geo::any_player();
-    kani::assume(rules::count_piece(&mb, Piece::new(pl, PieceKind::King)) == 1);
     let b = sym::board_of(&mb);
-    let k = rules::king_square(&mb, pl);
+    kani::assume(b.king(pl).count() == 1);
+    let k = geo::any_square();
+    kani::assume(mb[k.array_idx()] == Some(Piece::new(pl, PieceKind::King)));
+    unsafe {
+        ICQ_CALLS = 0;
+        ICQ_EXPECT = Some(mb);
+    }
     let got = b.king_in_check(pl);
-    let want = rules::attacked_by(&mb, k, pl.other());
     kani::cover!(got);
     kani::cover!(!got);
-    assert!(got == want);
+    unsafe {
+        assert!(ICQ_CALLS == 1 && ICQ_SQUARE == k.idx() && ICQ_PLAYER == Some(pl) && ICQ_SAME_BOARD);
+        assert!(got == (ICQ_ANSWER != 0));
+    }
 }
 
 //@ obligation: C02.canary.board
